@@ -570,6 +570,55 @@ func init() {
 				return Scalar{T: c.App("seq_at8", smt.BV(8), h, i), Typ: el}
 			}}
 		},
+		// (*cryptobyte.Builder).AddASN1(tag, f): the continuation f is run on a
+		// fresh child builder (the real code of f is executed symbolically, not
+		// assumed), then the parent receives the child's contents wrapped in a
+		// TLV with the given tag: *b = cbWrap(old(*b), tag, *child).  Assumed:
+		// the builder itself (length prefixing) behaves as cbWrap states and does
+		// not fail for contents below 4 GiB.
+		"golang.org/x/crypto/cryptobyte.(*Builder).AddASN1": func(e *Exec, st *State, f *ssa.Function, args []Value, pos token.Pos) Value {
+			c := e.C
+			bp, ok := args[0].(*PtrV)
+			if !ok {
+				e.refuse("AddASN1 on a non-pointer receiver")
+			}
+			fv, ok := args[2].(*FuncV)
+			if !ok || fv.Fn == nil {
+				e.refuse("AddASN1 with a continuation that is not a function literal")
+			}
+			T := bp.Elem
+			srt, isAbs := abstractSort(T)
+			if !isAbs {
+				e.refuse("cryptobyte.Builder is not modelled as an abstract type")
+			}
+			child := e.newLocal(T, "cryptobyte.child")
+			child.zeroInit = e.zero(T)
+			st.mem[child] = child.zeroInit
+			cp := &PtrV{Elem: T, Alts: []PtrAlt{{Cond: c.True(), Loc: &Loc{Obj: child}}}}
+			e.callFunc(st, fv.Fn, fv.Bindings, []Value{cp}, pos)
+			cv := e.load(st, cp, "child builder", pos).(Scalar)
+			old := e.load(st, bp, "builder", pos).(Scalar)
+			tag := args[1].(Scalar).T
+			e.store(st, bp, Scalar{T: c.App("spec_cbWrap", srt, old.T, c.ZExt(tag, 64), cv.T), Typ: T}, "builder", pos)
+			return &TupleV{}
+		},
+		// (*big.Int).SetBytes(buf) stores bigOf(seq(buf)) into its receiver and
+		// RETURNS THE RECEIVER ITSELF.  This is a native model because a contract
+		// "r == z" cannot express it: a contract's pointer result is a fresh
+		// pre-existing address, which can never equal a local object's address
+		// (the assumption became contradictory and everything after
+		// new(big.Int).SetBytes(..) was proved vacuously).
+		"math/big.(*Int).SetBytes": func(e *Exec, st *State, f *ssa.Function, args []Value, pos token.Pos) Value {
+			c := e.C
+			zp, ok := args[0].(*PtrV)
+			if !ok {
+				e.refuse("big.Int.SetBytes on a non-pointer receiver")
+			}
+			srt, _ := abstractSort(zp.Elem)
+			in := e.seqTerm(st, e.sliceSeq(st, args[1].(*SliceV)))
+			e.store(st, zp, Scalar{T: c.App("spec_bigOf", srt, in), Typ: zp.Elem}, "big.Int receiver", pos)
+			return zp
+		},
 		"encoding/hex.EncodeToString": func(e *Exec, st *State, f *ssa.Function, args []Value, pos token.Pos) Value {
 			return Scalar{T: e.hexEncode(st, e.sliceSeq(st, args[0].(*SliceV))), Typ: types.Typ[types.String]}
 		},
